@@ -34,6 +34,7 @@ ASSUMPTIONS = [
 ]
 
 TOL = 2e-3
+CENTRE2 = {"cls": "UNet", "sig": "svp", "norm": True, "flags": "mixed", "bias": "mean", "depth": 1}
 
 
 def _dims(d):
@@ -86,11 +87,16 @@ def cases(tier, seed):
             out.append(dict(base, d=d, cls=cls, sig="svp", norm=True, dev=3))
         for cls in ("ResNet", "UNet"):
             out.append(dict({k: v[0] for k, v in _dims(3).items()}, d=3, cls=cls, dev=1))
+        # second centre: U-Net, pseudo types, group norm, mixed flags, mean bias; every cell within 1 deviation of it
+        for cell, dev in explore.cells(explore.recentre(dims, CENTRE2), 1):
+            out.append(dict(cell, d=d, dev=dev + 10))
     else:
         for cell, dev in explore.cells(dims, 3):
             out.append(dict(cell, d=d, dev=dev))
         for cell, dev in explore.cells(_dims(3), 2):
             out.append(dict(cell, d=3, dev=dev + 1))
+        for cell, dev in explore.cells(explore.recentre(dims, CENTRE2), 2):
+            out.append(dict(cell, d=d, dev=dev + 10))
     out = [_normalise(c) for c in out]
     out = explore.dedupe(out, lambda c: repr(sorted(((k, v) for k, v in c.items() if k != "dev"), key=lambda kv: kv[0])))
     for c in out:
